@@ -40,7 +40,31 @@ CheckOut(e) ==
     /\ WellFormedW(code, e.res.start, e.M, e.L)
     /\ e.dialect = 88 => \A k \in 1..Len(code) : Legal88(code[k])
 
-Check(e) == CASE e.ev = "prog" -> CheckProg(e) [] e.ev = "out" -> CheckOut(e) [] OTHER -> FALSE
+\* ---------------------------------------------------------------- termination (C05)
+\* terminal-state predicate of the assembly pipeline for ANY input: it returned (no panic, not hung) within the
+\* per-case deadline, with an error and nothing else or with a warrior, and left no producer goroutine behind
+Terminal(e) ==
+  /\ e.outcome \in {"ok", "err"}
+  /\ e.leak = 0
+  /\ e.outcome = "err" => e.empty = 1
+  /\ e.outcome = "ok" => e.codenil = 0
+  /\ e.us <= 10000000
+\* EQU reference graphs: edges[i][j] = 1 iff the body of name i mentions name j; the program uses name 1 at `site`
+Reach(edges, n) ==
+  LET step(R) == R \cup {<<x, z>> \in (1..n) \X (1..n) : \E y \in 1..n : <<x, y>> \in R /\ <<y, z>> \in R}
+      R1 == {<<x, y>> \in (1..n) \X (1..n) : edges[x][y] = 1}
+  IN step(step(R1))
+CheckEquGraph(e) ==
+  LET R == Reach(e.edges, e.n)
+      onCycle(x) == <<x, x>> \in R
+      used == IF e.site = "unused" THEN {} ELSE {1} \cup {y \in 1..e.n : <<1, y>> \in R}
+      usedCyclic == \E x \in used : onCycle(x)
+      anyCycle == \E x \in 1..e.n : onCycle(x)
+  IN /\ Terminal(e)
+     /\ usedCyclic => e.outcome = "err"          \* a cyclic definition that is used has no meaning
+     /\ ~anyCycle => e.outcome = "ok"            \* acyclic definitions always resolve
+Check(e) == CASE e.ev = "prog" -> CheckProg(e) [] e.ev = "out" -> CheckOut(e)
+              [] e.ev = "fuzz" -> Terminal(e) [] e.ev = "equgraph" -> CheckEquGraph(e) [] OTHER -> FALSE
 Explain(e) == IF e.ev = "prog" THEN Meaning(e.p) ELSE "n/a"
 
 VARIABLE l
